@@ -47,6 +47,7 @@ type Contract struct {
 	Modifies   []*Clause // nil slice + ModNothing => modifies nothing
 	ModGiven   bool
 	Loops      map[int]*LoopSpec
+	AltLoops   map[int]*LoopSpec // `loop k alt invariant|decreases`: a second candidate set of loop clauses (see retryAltLoops)
 	Assumed    bool   // dependency contract: never verified, only used
 	Trusted    string // reason if the body is not verified although in repo
 	Pure       bool
@@ -508,10 +509,22 @@ func (cs *ContractSet) loadFile(path string, goFile bool, pkgName string, assume
 			}
 			fmt.Sscanf(fs[0], "%d", &k)
 			sub = fs[1]
-			ls := cur.Loops[k]
+			table := cur.Loops
+			if sub == "alt" { // loop <k> alt invariant|decreases <expr>
+				fs2 := strings.SplitN(strings.TrimSpace(fs[2]), " ", 2)
+				if len(fs2) < 2 {
+					return fmt.Errorf("%s:%d: loop <k> alt invariant|decreases <expr>", path, l.line)
+				}
+				sub, fs[2] = fs2[0], fs2[1]
+				if cur.AltLoops == nil {
+					cur.AltLoops = map[int]*LoopSpec{}
+				}
+				table = cur.AltLoops
+			}
+			ls := table[k]
 			if ls == nil {
 				ls = &LoopSpec{Ordinal: k}
-				cur.Loops[k] = ls
+				table[k] = ls
 			}
 			c, err := mkClause(sub, label, strings.TrimSpace(fs[2]), l.line, nil)
 			if err != nil {
